@@ -105,14 +105,33 @@ def run(ctx) -> None:
     # R3c: the listing is decoded by a codec that can fail: an input that is not text (UTF-16, compressed, a binary given
     # with -s) ends in an error, it is not read as mojibake that contains no instruction
     LENIENT = {"latin-1", "latin1", "latin_1", "iso-8859-1", "iso8859-1", "l1", "cp437", "cp850", "cp1252", "mac-roman", "charmap"}
+    n_reads = 0
     for s in match_scenarios(Im, file_types=("assembly",), return_modes=("bool",), search_modes=("first_find",), only_addrs=(False,), configs=({},)):
         for e in s.path.events:
+            # the same obligation for the other ways of getting text out of a file: Path(...).read_text(...), <bytes>.decode(...)
+            if e.kind == "call_unknown" and (e.target.endswith(".read_text") or e.target.endswith(".decode")) and \
+                    "INPUT_FILE" in Im.expr_of(e.fvalue):
+                n_reads += 1
+                pos = list(e.args)
+                enc_v = e.kwargs.get("encoding", pos[0] if pos else NONE)
+                err_v = e.kwargs.get("errors", pos[1] if len(pos) > 1 else NONE)
+                enc = Im.expr_of(enc_v).strip("'\"").lower()
+                errs = Im.expr_of(err_v).strip("'\"").lower()
+                ctx.check(enc not in LENIENT and errs in ("none", "strict"), "C17.R3.undecodable-input-is-loud", "NullDisassembler.disassemble",
+                          f"{e.target.split('.')[-1]}(encoding={enc!r}, errors={errs!r})",
+                          "the listing is decoded with a codec and error mode that reject undecodable bytes")
             if e.kind == "open" and "INPUT_FILE" in Im.expr_of(e.file):
+                n_reads += 1
+                if "b" in Im.expr_of(e.kwargs.get("mode", e.args[1] if len(e.args) > 1 else NONE)):
+                    continue        # bytes: judged where they are decoded
                 enc = Im.expr_of(e.kwargs.get("encoding", NONE)).strip("'\"").lower()
                 errs = Im.expr_of(e.kwargs.get("errors", NONE)).strip("'\"").lower()
                 ctx.check(enc not in LENIENT and errs in ("none", "strict"), "C17.R3.undecodable-input-is-loud", "NullDisassembler.disassemble",
                           f"open(..., encoding={enc!r}, errors={errs!r})", "the listing is opened with a codec and error mode that reject undecodable bytes")
         break
+    if n_reads == 0:
+        from ..facts import AnalysisError
+        raise AnalysisError("C17.R3: no recognised read of the input listing (open / read_text / decode) on the assembly route")
     # R4 times
     I = make_interp(ctx.p)
     nb = ctx.p.find_class("PatternNodeBuilderNoParents")
